@@ -349,6 +349,10 @@ def _w_represent(res, p):
     N = p["N"]
     names = {f"p{i}": z3.Real(f"p{i}") for i in range(len(keys))}
     base = [z >= 0 for z in names.values()] + [sum(names.values()) == 1]
+    if p.get("unnormalised"):
+        # an unnormalised distribution object (built with normalize=False) is a legal argument; only the
+        # "argument unchanged" clause is examined for it (C20)
+        base = [z >= 0 for z in names.values()] + [sum(names.values()) >= z3.RealVal("1/2"), sum(names.values()) <= z3.RealVal("3/2")]
     records = []
     res.nontrivial()
     try:  # evidence only: a renamed private helper must not break the check
@@ -364,6 +368,12 @@ def _w_represent(res, p):
         before = list(d.distribution_dict.items())
         m = MM.Measurements.get_measurements_representing_distribution(d, N)
         shots = m.bitstrings
+        if p.get("unnormalised"):
+            after = list(d.distribution_dict.items())
+            same = len(after) == len(before) and all(a[0] == b[0] for a, b in zip(after, before))
+            claim = z3.And(*[ST.zr_real(a[1]) == ST.zr_real(b[1]) for a, b in zip(after, before)]) if same else z3.BoolVal(False)
+            records.append(("distribution-unchanged",) + ex.prove(claim))
+            return len(shots)
         records.append(("exactly-N-shots",) + ex.prove(z3.BoolVal(len(shots) == N)))
         supp = []
         for s in shots:
